@@ -17,6 +17,7 @@ EXPLANATION = (
 EXPLANATION_ADDED2 = '(R6) the reply codes passed by the client front end belong to the protocol version of the writer and are the success code exactly after the channel is established.'
 EXPLANATION = EXPLANATION + " Added while testing against seeded changes: " + EXPLANATION_ADDED2
 EXPLANATION = EXPLANATION + " Rounds 12-13: (R7) the request / negotiation readers read from the caller's reader itself (no take / chain / buffering adaptor between the reader parameter and a read call)."
+EXPLANATION = EXPLANATION + ' Rounds 14-15 and the value sweep: ports are exact in the writers and readers (R1-R4); the domain buffer length is the length octet itself (R3); (R8) no normalising conversion (to_canonical, case folding, trimming, lossy UTF-8, byte swapping) in penguin-socks.'
 ASSUMPTIONS = [
     "tokio AsyncReadExt::read_uN read big-endian fixed widths; read_exact fills the whole buffer; "
     "read_until stops at the delimiter or EOF (library contracts)",
